@@ -191,10 +191,15 @@ func (p *Proc) Send(line string) (string, error) {
 	}
 	p.kill()
 	p.Restarts++
-	if err := p.ensure(); err != nil {
-		return out, err
+	// the binary may be momentarily missing (e.g. the model being rebuilt): retry for a while
+	var err error
+	for try := 0; try < 8; try++ {
+		if err = p.ensure(); err == nil {
+			return out, nil
+		}
+		time.Sleep(500 * time.Millisecond)
 	}
-	return out, nil
+	return out, err
 }
 
 func summarize(stderr string) string {
